@@ -184,10 +184,10 @@ def payload_panics(err):
 
 # ---------------------------------------------------------------- C10: several receivers, real scheduling
 
-def c10_scenario(rep, binary, workdir, rng, attempt=0):
-    nsrc = rng.choice([2, 2, 3])
-    window = rng.choice([100, 200, 400])
-    nframes = rng.choice([40, 150, 400])
+def c10_scenario(rep, binary, workdir, rng, attempt=0, params=None):
+    # a retry repeats the same shape (receivers, window, number of frames) with fresh frames: a loss that depends on
+    # the shape (e.g. more groups closing at once than a channel holds) must reproduce, a hiccup of the machine must not
+    nsrc, window, nframes = params or (rng.choice([2, 2, 3]), rng.choice([100, 200, 400]), rng.choice([40, 150, 400, 900]))
     good = [df17(rng.randrange(1, 1 << 24), me_ident(rng.choice([1, 2, 3, 4]), rng.randrange(8), "T%05d" % k)) for k in range(nframes)]
     good = list(dict.fromkeys(good))
     bad = []
@@ -298,7 +298,7 @@ def c10_scenario(rep, binary, workdir, rng, attempt=0):
     if missing and alive:
         if attempt == 0:
             rep.cls("system:incomplete-first-attempt(retried)")
-            return c10_scenario(rep, binary, workdir, random.Random(rng.random()), attempt=1)
+            return c10_scenario(rep, binary, workdir, random.Random(rng.random()), attempt=1, params=(nsrc, window, nframes))
         if done is False:
             rep.violation("C10:system:lost", f"{len(missing)} of {len(good)} frames sent on {nsrc} feeds never came out with all their receptions, "
                           f"45 s after four later frames closed their window (reproduced on a second attempt), e.g. {missing[0]} -> {per_frame.get(missing[0])}", replay)
